@@ -84,7 +84,11 @@ def uses_indices_itself(fi: FuncInfo) -> bool:
             for a in list(n.args) + [k.value for k in n.keywords]:
                 if isinstance(a, ast.Name) and a.id == 'indices':
                     forwarded.add(id(a))
-    return any(isinstance(n, ast.Name) and n.id == 'indices' and id(n) not in forwarded for n in ast.walk(fi.node))
+    if not any(isinstance(n, ast.Name) and n.id == 'indices' and id(n) not in forwarded for n in ast.walk(fi.node)):
+        return False
+    # ... and enumerates something with it (a loop or a comprehension): a helper that merely validates or
+    # completes the selection is analysed where it is used
+    return any(isinstance(n, (ast.For, ast.ListComp, ast.GeneratorExp)) for n in ast.walk(fi.node))
 
 
 def _is_len_of(e: ast.AST, name: str) -> bool:
